@@ -172,6 +172,7 @@ Section JoinCong.
   Lemma env_join_cong env eids k ms : env_join env av1 eids hs k ms = env_join env av2 eids hs k ms.
   Proof.
     unfold env_join. destruct (negb (join_ok env k ms)); [reflexivity|].
+    destruct (negb (handles_ok hs k ms)); [reflexivity|].
     destruct (negb (forallb (m_registered env) ms)); [reflexivity|].
     destruct k as [lim|lim|n|h|i].
     - destruct (jkeys env eids ms); [|reflexivity]. rewrite visit_keys_cong. reflexivity.
